@@ -360,6 +360,9 @@ async fn drive(fill: u64, pairs: Vec<PairScript>) -> Result<Result<Outcome, Fail
 
 static TIMEOUTS: AtomicU32 = AtomicU32::new(0);
 static FOUND: AtomicBool = AtomicBool::new(false);
+static FOUND_AT: std::sync::Mutex<Option<std::time::Instant>> = std::sync::Mutex::new(None);
+/// after a violation has been established, shrinking gets this much wall time
+const SHRINK_BUDGET: Duration = Duration::from_secs(25);
 
 fn dedup(pairs: &[PairScript]) -> Vec<PairScript> {
     let mut seen = vec![];
@@ -376,6 +379,15 @@ fn dedup(pairs: &[PairScript]) -> Vec<PairScript> {
 
 pub fn run_case(s: &Session, case: &MuxCase, obs: &mut Obs) -> Result<(), Fail> {
     let pairs = dedup(&case.pairs);
+    if !s.replaying() {
+        // bounded cost on a broken multiplexer: stop shrinking after SHRINK_BUDGET; stop running
+        // schedules once the run is inconclusive anyway (8 stalled schedules)
+        let over = FOUND_AT.lock().unwrap().map(|t| t.elapsed() > SHRINK_BUDGET).unwrap_or(false);
+        if over || TIMEOUTS.load(Ordering::Relaxed) >= 8 {
+            obs.discard();
+            return Ok(());
+        }
+    }
     let wait = if FOUND.load(Ordering::Relaxed) {
         Duration::from_millis(1500)
     } else if TIMEOUTS.load(Ordering::Relaxed) >= 2 {
@@ -402,6 +414,7 @@ pub fn run_case(s: &Session, case: &MuxCase, obs: &mut Obs) -> Result<(), Fail> 
         }
         Ok(Err(f)) => {
             FOUND.store(true, Ordering::Relaxed);
+            FOUND_AT.lock().unwrap().get_or_insert_with(std::time::Instant::now);
             Err(f)
         }
         Ok(Ok(o)) => {
